@@ -224,6 +224,41 @@ func checkC02(c *Ctx, r *Report) {
 		}
 	}
 
+	// ---------- R4 ----------
+	r.Rule("C02-R4", "every core.ProxyFunc implementation hands its own parameters (writer, request, endpoint) to the code that performs the attempt; a captured outer writer/request/endpoint bypasses the loop's wrapper and selection", 2)
+	for _, impl := range proxyFuncImpls(c) {
+		own := map[ssa.Value]bool{}
+		for _, p := range impl.Params {
+			own[p] = true
+		}
+		bad := []string{}
+		n := 0
+		eachInstr(impl, func(in ssa.Instruction) {
+			cc := getCall(in)
+			if cc == nil {
+				return
+			}
+			args := cc.Args
+			if cc.IsInvoke() {
+				args = append([]ssa.Value{cc.Value}, args...)
+			}
+			for _, a := range args {
+				if isNamed(a.Type(), "net/http", "ResponseWriter") || isNamed(a.Type(), "net/http", "Request") || isEndpointPtr(a.Type()) {
+					n++
+					if !own[a] {
+						bad = append(bad, fmt.Sprintf("%s: %s argument %s is not this attempt's own parameter", c.Pos(in.Pos()), a.Type(), a.Name()))
+					}
+				}
+			}
+		})
+		key := fname(impl) + ":own-params"
+		if len(bad) > 0 {
+			r.Bad("C02-R4", key, impl.Pos(), "the per-attempt function uses a writer/request/endpoint other than the one the retry loop passed in (captured from the enclosing scope): response tracking and endpoint selection are bypassed", bad...)
+		} else {
+			r.OK("C02-R4", key, impl.Pos(), fmt.Sprintf("all %d writer/request/endpoint operands are the function's own parameters", n))
+		}
+	}
+
 	// ---------- R2 ----------
 	r.Rule("C02-R2", "in the proxy engines, the status passed to ResponseWriter.WriteHeader is the StatusCode field of an *http.Response (the attempt's own response), never a constant or other value", 2)
 	for _, f := range c.Funcs {
@@ -261,6 +296,8 @@ func checkC02(c *Ctx, r *Report) {
 			Old: "func (t *responseTracker) Write(p []byte) (int, error) {\n	t.started = true\n", New: "func (t *responseTracker) Write(p []byte) (int, error) {\n"},
 		Mutant{Prop: "C02", Name: "unguarded-proxy-error", File: "internal/app/handlers/handler_proxy.go", Rule: "C02-R3",
 			Old: "	if w.Header().Get(constants.HeaderContentType) == \"\" {\n		http.Error(w, fmt.Sprintf(\"Proxy error: %v\", err), http.StatusBadGateway)\n	}", New: "	http.Error(w, fmt.Sprintf(\"Proxy error: %v\", err), http.StatusBadGateway)"},
+		Mutant{Prop: "C02", Name: "closure-uses-outer-writer", File: "internal/adapter/proxy/olla/service_retry.go", Rule: "C02-R4",
+			Old: "	proxyFunc := func(ctx context.Context, w http.ResponseWriter, r *http.Request, endpoint *domain.Endpoint, stats *ports.RequestStats) error {\n		return s.proxyToSingleEndpoint(ctx, w, r, endpoint, stats, rlog)", New: "	proxyFunc := func(ctx context.Context, rw http.ResponseWriter, r *http.Request, endpoint *domain.Endpoint, stats *ports.RequestStats) error {\n		return s.proxyToSingleEndpoint(ctx, w, r, endpoint, stats, rlog)"},
 		Mutant{Prop: "C02", Name: "constant-status", File: "internal/adapter/proxy/sherpa/service_retry.go", Rule: "C02-R2",
 			Old: "	w.WriteHeader(resp.StatusCode)", New: "	w.WriteHeader(http.StatusOK)"},
 	)
